@@ -745,15 +745,50 @@ theorem mergeFull_ok (cx : Ctx) (top : List Nat) (n : Nat) (hd : defsIn n cx = t
         rcases List.mem_cons.mp hl with rfl | hl
         · exact hok
         · exact ih.2 l hl
-  have hs : SInv n { layers := sortLayers (top.filterMap (mkLayer cx)) } :=
-    sinv_sorted (Nat.zero_le _) (hinit top).2
+  -- the initial layer vector, with or without the insertion of the further layers
+  have hfold : ∀ (r base : List FLayer), (∀ l ∈ r, l.ends = [] ∧ LayerOk n l) → (∀ l ∈ base, LayerOk n l) →
+      totalEnds (r.foldl insertLayer base) = totalEnds base ∧ ∀ l ∈ r.foldl insertLayer base, LayerOk n l := by
+    intro r
+    induction r with
+    | nil => intro base _ hb; exact ⟨rfl, hb⟩
+    | cons x r ih =>
+      intro base hr hb
+      simp only [List.foldl_cons]
+      have hx := hr x (List.mem_cons_self)
+      have hb' : ∀ l ∈ insertLayer base x, LayerOk n l := by
+        intro l hl
+        rcases mem_insertLayer hl with hl | hl
+        · exact hb l hl
+        · rw [hl]; exact hx.2
+      have := ih (insertLayer base x) (fun l hl => hr l (List.mem_cons_of_mem _ hl)) hb'
+      exact ⟨by rw [this.1, totalEnds_insertLayer base x hx.1], this.2⟩
+  have hends : ∀ (ids : List Nat), ∀ l ∈ ids.filterMap (mkLayer cx), l.ends = [] ∧ LayerOk n l := by
+    intro ids l hl
+    obtain ⟨id, _, hm⟩ := List.mem_filterMap.mp hl
+    exact mkLayer_ok hdo hm
+  have hinit2 : totalEnds (initLayers cx top) = 0 ∧ ∀ l ∈ initLayers cx top, LayerOk n l := by
+    unfold initLayers
+    split
+    · cases hf : top.filterMap (mkLayer cx) with
+      | nil => exact ⟨rfl, fun _ h => by simp at h⟩
+      | cons l0 r =>
+        simp only
+        have hall := hends top
+        rw [hf] at hall
+        have h0 := hall l0 (List.mem_cons_self)
+        have := hfold r [l0] (fun l hl => hall l (List.mem_cons_of_mem _ hl))
+          (fun l hl => by simp at hl; rw [hl]; exact h0.2)
+        exact ⟨by rw [this.1]; simp [totalEnds, h0.1], this.2⟩
+    · exact hinit top
+  have hs : SInv n { layers := sortLayers (initLayers cx top) } :=
+    sinv_sorted (Nat.zero_le _) hinit2.2
   have hfin : (mergeFull cx top n).2 = true := by
     unfold mergeFull
     exact runM_fin hdo hr _ _ hs (Nat.lt_succ_self _)
   refine ⟨hfin, ?_⟩
   unfold mergeFull at hfin ⊢
   have := runM_wf hdo _ _ hs hfin
-  simp only [totalEnds_sortLayers, (hinit top).1] at this
+  simp only [totalEnds_sortLayers, hinit2.1] at this
   exact this
 
 end TsVerif.C17.Full
